@@ -507,3 +507,72 @@ def mbSplitPoints (obj : Nat → AnchorObj) (baseCovSize baseCount : Nat) (infos
   if st.points.isEmpty then none else some (st.points.reverse ++ [infos.length])
 
 end FontVerif.Layout
+
+namespace FontVerif.Layout
+
+/-! ## the size loop of `split_pair_pos_format_2` WITH device / variation-index tables
+(`graph/splitting/pairpos.rs`: `size_of_class1_record_children`, `size_of_value_record_children`,
+the `visited` set; since /repo 2b4b586 the record that starts a new piece is re-counted after
+`visited.clear()`) -/
+
+/-- `size_of_class1_record_children`: the non-null device offsets of one class1 record in writing
+order as `(object id, byte length)`; an object already in `visited` counts 0 (`seen.insert`) -/
+def childrenSize (devs : List (Nat × Nat)) (visited : List Nat) : Nat × List Nat :=
+  devs.foldl (fun acc d => if acc.2.contains d.1 then acc else (acc.1 + d.2, d.1 :: acc.2)) (0, visited)
+
+structure Ppf2DAcc where
+  /-- first class1 record of the piece being accumulated -/
+  start : Nat
+  accumulated : Nat
+  covSize : Nat
+  cd1Size : Nat
+  visited : List Nat
+  /-- finished pieces `(start, end, accumulated estimate)`, reversed -/
+  pieces : List (Nat × Nat × Nat)
+
+/-- one iteration for class1 record `idx` with device offsets `devs`.  `fixed = true`: the current
+code (at a split `visited.clear()`, then the record's device tables are counted again);
+`fixed = false`: the code before /repo 2b4b586 (the delta computed against the previous piece's
+`visited` set is kept). -/
+def ppf2DStep (fixed : Bool) (e : Ppf2Est) (recSize cd2Size : Nat) (st : Ppf2DAcc) (idx : Nat)
+    (devs : List (Nat × Nat)) : Ppf2DAcc :=
+  let covSize := st.covSize + e.incCov idx
+  let cd1Size := st.cd1Size + e.incClassDef idx
+  let ch := childrenSize devs st.visited
+  let delta := recSize + ch.1
+  let accumulated := st.accumulated + delta
+  let largest := max (max covSize cd1Size) cd2Size
+  let total := accumulated + covSize + cd1Size + cd2Size - largest
+  if total > 65535 then
+    let ch' := if fixed then childrenSize devs [] else (ch.1, [])
+    { start := idx, accumulated := 16 + (recSize + ch'.1), covSize := 4 + e.incCov idx,
+      cd1Size := 4 + e.incClassDef idx, visited := ch'.2,
+      pieces := (st.start, idx, st.accumulated) :: st.pieces }
+  else
+    { st with accumulated := accumulated, covSize := covSize, cd1Size := cd1Size, visited := ch.2 }
+
+def ppf2DLoop (fixed : Bool) (e : Ppf2Est) (recSize cd2Size : Nat) :
+    Ppf2DAcc → Nat → List (List (Nat × Nat)) → Ppf2DAcc
+  | st, _, [] => st
+  | st, idx, devs :: rest =>
+    ppf2DLoop fixed e recSize cd2Size (ppf2DStep fixed e recSize cd2Size st idx devs) (idx + 1) rest
+
+/-- the pieces `(first class1 record, end, estimated bytes of the subtable + its device tables)` of
+`split_pair_pos_format_2` for a subtable whose class1 record `i` has the device offsets `rows[i]`;
+`none` = nothing to split -/
+def ppf2DPieces (fixed : Bool) (gc : List (Nat × Nat)) (recSize cd2Size : Nat)
+    (rows : List (List (Nat × Nat))) : Option (List (Nat × Nat × Nat)) :=
+  let st := ppf2DLoop fixed ⟨gc⟩ recSize cd2Size ⟨0, 16, 4, 4, [], []⟩ 0 rows
+  if st.pieces.isEmpty then none
+  else some (st.pieces.reverse ++ [(st.start, rows.length, st.accumulated)])
+
+/-- the device objects of a list of device offsets, each object once (first occurrence) -/
+def dedupDevs : List (Nat × Nat) → List Nat → List (Nat × Nat)
+  | [], _ => []
+  | d :: rest, seen => if seen.contains d.1 then dedupDevs rest seen else d :: dedupDevs rest (d.1 :: seen)
+
+/-- the true size of a piece: header + records + every distinct device object once -/
+def ppf2PieceSize (recSize : Nat) (rows : List (List (Nat × Nat))) (s e : Nat) : Nat :=
+  16 + (e - s) * recSize + ((dedupDevs ((rows.drop s).take (e - s)).flatten []).map (·.2)).sum
+
+end FontVerif.Layout
